@@ -201,12 +201,25 @@ def run(chk, prog):
         okk = False
         if len(ins) == 1:
             # key aggregate built from both projections .0 and .1 of the argument
-            txt = ""
-            for b in cs.reachable:
-                for st in cs.stmts(b):
-                    if st["k"] == "assign":
-                        txt += str(st["rv"])
-            okk = "'f:0'" in txt and "'f:1'" in txt
+            PASS = [r"clone::Clone::clone$", r"string::ToString::to_string$", r"borrow::ToOwned::to_owned$", r"convert::Into::into$"]
+            tr = cs.trace(op_base(ins[0].args[1]), through_calls=PASS)
+            agg = None
+            for k, info in tr:
+                if k == "agg" and info.get("ak") == "tuple":
+                    agg = info
+            comps = []
+            if agg is not None and len(agg["ops"]) == 2:
+                for o in agg["ops"]:
+                    l = op_base(o)
+                    proj = None
+                    if l is not None:
+                        for k, info in cs.trace(l, through_calls=PASS):
+                            if k in ("place", "ref") and proj is None and info[0] != 1:
+                                fs = [x for x in info[1:] if x.startswith("f:")]
+                                if fs:
+                                    proj = fs[-1]
+                    comps.append(proj)
+            okk = comps == ["f:0", "f:1"]
         # timeout == 0 -> return before insert
         tz = False
         from .panics import _cmp_facts
